@@ -184,6 +184,17 @@ class Source:
             e -= 1
         return Region(self, nl + 1, e)
 
+    def block_contents(self, block_region):
+        """Everything between the braces of a `{ .. }` block."""
+        t = self.text
+        if t[block_region.start] != "{" or t[block_region.end - 1] != "}":
+            raise LostAnchor("expected a block in %s" % self.rel)
+        nl = t.find("\n", block_region.start)
+        e = block_region.end - 1
+        while t[e - 1] in " \t\n":
+            e -= 1
+        return Region(self, nl + 1, e)
+
     def tail_after(self, fn_region, after):
         """Everything after the statement text `after` up to (excluding) the closing brace of the function body."""
         a = self._unique(after, fn_region.start, fn_region.end) + len(after)
